@@ -10,7 +10,6 @@ mod misc;
 mod msm;
 mod util;
 
-use group::Group;
 use midnight_curves::{bn256, Bls12, Fq, G1Affine, G1Projective, G2Affine, G2Projective};
 use midnight_proofs::{
     poly::{
@@ -22,28 +21,32 @@ use midnight_proofs::{
 use vcore::{Ctx, Level};
 
 use crate::{
-    msm::{generic_entries, Entry, Inst, MsmPlan},
+    msm::{generic_entries, Entry, Inst, MsmPlan, PoolClass},
     util::POOLS_ALL,
 };
+
+/// Quick tier: patterns kept under the pools of 5 and more threads (chunks handed to msm_serial by
+/// msm_parallel are shorter inputs of the same patterns, which pools 1..3 and the shorter lengths cover in full).
+const REDUCED_PATTERNS: [&str; 6] = ["random", "max-scalars", "identity-middle", "opposite-same-scalar", "opposite-pairs", "repeated-zero-sum"];
 
 fn bls_g1_entries() -> Vec<Entry<G1Affine>> {
     let mut v = generic_entries::<G1Affine>("");
     v.push(Entry {
         name: "msm_specific".into(),
         reaches_msm_best: false, // BLS12-381 G1 goes to blst's Pippenger up to 2^19 terms
-        pool_independent: true,
+        pool_class: PoolClass::Independent,
         f: Box::new(|i: &Inst<G1Affine>| msm_specific::<G1Affine>(&i.scalars, &i.bases_proj)),
     });
     v.push(Entry {
         name: "g1:multi_exp".into(),
         reaches_msm_best: false,
-        pool_independent: true,
+        pool_class: PoolClass::Independent,
         f: Box::new(|i: &Inst<G1Affine>| G1Projective::multi_exp(&i.bases_proj, &i.scalars)),
     });
     v.push(Entry {
         name: "msmkzg:eval".into(),
         reaches_msm_best: false,
-        pool_independent: true,
+        pool_class: PoolClass::Independent,
         f: Box::new(|i: &Inst<G1Affine>| {
             let mut m = MSMKZG::<Bls12>::init();
             for (s, b) in i.scalars.iter().zip(i.bases_proj.iter()) {
@@ -60,7 +63,7 @@ fn bn_g1_entries() -> Vec<Entry<bn256::G1Affine>> {
     v.push(Entry {
         name: "bn254:msm_specific".into(),
         reaches_msm_best: true,
-        pool_independent: false,
+        pool_class: PoolClass::Wrapper,
         f: Box::new(|i: &Inst<bn256::G1Affine>| {
             msm_specific::<bn256::G1Affine>(&i.scalars, &i.bases_proj)
         }),
@@ -68,7 +71,7 @@ fn bn_g1_entries() -> Vec<Entry<bn256::G1Affine>> {
     v.push(Entry {
         name: "bn254:msmkzg:eval".into(),
         reaches_msm_best: true,
-        pool_independent: false,
+        pool_class: PoolClass::Wrapper,
         f: Box::new(|i: &Inst<bn256::G1Affine>| {
             let mut m = MSMKZG::<bn256::Bn256>::init();
             for (s, b) in i.scalars.iter().zip(i.bases_proj.iter()) {
@@ -85,13 +88,13 @@ fn bls_g2_entries() -> Vec<Entry<G2Affine>> {
     v.push(Entry {
         name: "g2:msm_specific".into(),
         reaches_msm_best: true,
-        pool_independent: false,
+        pool_class: PoolClass::Wrapper,
         f: Box::new(|i: &Inst<G2Affine>| msm_specific::<G2Affine>(&i.scalars, &i.bases_proj)),
     });
     v.push(Entry {
         name: "g2:multi_exp".into(),
         reaches_msm_best: false,
-        pool_independent: true,
+        pool_class: PoolClass::Independent,
         f: Box::new(|i: &Inst<G2Affine>| G2Projective::multi_exp(&i.bases_proj, &i.scalars)),
     });
     v
@@ -105,10 +108,12 @@ fn main() {
 
     cx.set_rule(
         "complete enumeration of (entry point x length x pattern x rayon pool size). MSM: lengths ALL of 0..=70 \
-         then {127,128,129,255,256,257,1000,4095,4096} (quick: +8104 with 4 patterns {random, identity-middle, opposite-pairs, equal-bases}, and 1000 / 4095 with 6 patterns; \
+         then {127,128,129,255,256,257,1000,4095,4096} (quick: +8104 with 4 patterns {random, identity-middle, opposite-pairs, equal-bases}, and 1000 / 4095 with 7 patterns; \
          thorough adds {8103,8104,8200,22027} with all patterns) x 16 scalar/base patterns x pools {1,2,3,5,8,16} \
-         (quick: pools {1,2,3,16} for lengths >= 1000; entries with no rayon call on their path - msm_serial and \
-         the blst-backed ones - run under pools {1,16} only, pool 1 only for lengths >= 1000 in quick) on BLS12-381 G1, \
+         (quick: pools {1,2,3,16} for lengths >= 1000, and under pools 5, 8, 16 only the 6 patterns {random, max-scalars, \
+         identity-middle, opposite-same-scalar, opposite-pairs, repeated-zero-sum}; entries with no rayon call on their \
+         path - msm_serial and the blst-backed ones - run under pools {1,16} only, pool 1 only in quick; thin wrappers \
+         around msm_best - msm_specific and MSMKZG::eval on BN254/G2 - run under pools {1,3} in quick, {1,16} at 8104, all pools in thorough) on BLS12-381 G1, \
          BN254 G1 and BLS12-381 G2 (quick: G2 lengths 0..=36 and {127,128,129,257} under pools {1,3,16}); \
          reference (Σ sᵢbᵢ)·G with known seeded dlogs bᵢ for every length and, for lengths <= 70, ALSO the direct \
          naive sum Σ sᵢ·Pᵢ. FFT: k = 0..=10 (thorough 12) x pools x {δ0, δlast, ones, seeded} vs the O(n²) DFT \
@@ -147,7 +152,7 @@ fn main() {
         if !thorough && n > 4096 {
             Some(vec!["random", "identity-middle", "opposite-pairs", "equal-bases"])
         } else if !thorough && (n == 1000 || n == 4095) {
-            Some(vec!["random", "max-scalars", "identity-middle", "equal-bases", "opposite-pairs", "repeated-zero-sum"])
+            Some(vec!["random", "max-scalars", "identity-middle", "equal-bases", "opposite-same-scalar", "opposite-pairs", "repeated-zero-sum"])
         } else {
             None
         }
@@ -156,8 +161,10 @@ fn main() {
         curve,
         lengths: lens.clone(),
         pools_for: Box::new(pools_for),
-        pools_independent_for: Box::new(move |n| if !thorough && n >= 1000 { vec![1] } else { vec![1, 16] }),
+        pools_independent_for: Box::new(move |_| if !thorough { vec![1] } else { vec![1, 16] }),
+        pools_wrapper_for: Box::new(move |n| if thorough { POOLS_ALL.to_vec() } else if n >= 8104 { vec![1, 16] } else { vec![1, 3] }),
         patterns_for: Box::new(patterns_for),
+        patterns_under_pool: Box::new(move |n, t| if !thorough && t >= 5 && n > 0 { Some(REDUCED_PATTERNS.to_vec()) } else { None }),
     };
     msm::run_curve::<G1Affine>(&mut cx, &plan_g1("bls12-381-g1"), &bls_g1_entries());
     msm::run_curve::<bn256::G1Affine>(&mut cx, &plan_g1("bn254-g1"), &bn_g1_entries());
@@ -171,8 +178,10 @@ fn main() {
         curve: "bls12-381-g2",
         lengths: g2_lens,
         pools_for: Box::new(move |_| if thorough { POOLS_ALL.to_vec() } else { vec![1, 3, 16] }),
-        pools_independent_for: Box::new(|_| vec![1, 16]),
+        pools_independent_for: Box::new(move |_| if !thorough { vec![1] } else { vec![1, 16] }),
+        pools_wrapper_for: Box::new(move |_| if thorough { POOLS_ALL.to_vec() } else { vec![1, 3] }),
         patterns_for: Box::new(|_| None),
+        patterns_under_pool: Box::new(move |n, t| if !thorough && t >= 5 && n > 0 { Some(REDUCED_PATTERNS.to_vec()) } else { None }),
     };
     msm::run_curve::<G2Affine>(&mut cx, &plan_g2, &bls_g2_entries());
     kzg::msmkzg_algebra(&mut cx);
@@ -199,6 +208,14 @@ fn main() {
     cx.require(cx.counter_value("msm-bls12-381-g1:instances-with-direct-naive-sum") >= 71, "direct naive sums were not computed for lengths 0..=70");
     cx.require(cx.counter_value("fft:algorithm:iterative") > 0 && cx.counter_value("fft:algorithm:recursive") > 0, "best_fft: both algorithms (log_n <= log2(threads) and recursive) must be reached");
     cx.require(cx.counter_value("eval_polynomial:serial-branch") > 0 && cx.counter_value("eval_polynomial:chunked-branch") > 0, "eval_polynomial: both branches (2n < threads and chunked) must be reached");
-    let _ = G1Projective::identity();
+    cx.require(cx.counter_value("reference-self-disagreement") == 0, "the naive references disagree with themselves (domain / KZG groups)");
+    let via: Vec<String> = ["msm_best", "bn254:msm_best", "bn254:msm_specific", "bn254:msmkzg:eval", "g2:msm_best", "g2:msm_specific"]
+        .iter()
+        .filter(|e| cx.counter_value(&format!("msm_best-identity-panic-via:{e}")) > 0)
+        .map(|e| e.to_string())
+        .collect();
+    if !via.is_empty() {
+        cx.note(format!("finding msm_best:identity-base:len>=8104:panic was reached through these entry points (one root cause: generic msm_best copies every base with Affine::from, which unwraps the coordinates of the identity): {}", via.join(", ")));
+    }
     cx.finish()
 }
